@@ -98,6 +98,7 @@ def token_strings(maxlen, ren=None):
 
 
 # other spellings of the two symbols (constant, label): names made of register letters, names that contain a register name
+LOW_ORG = 0x0020
 RENAMES = [("AB", "BD"), ("ABD", "DD"), ("XS", "SU"), ("PCRX", "CCX"), ("EA", "DPY"), ("BH", "EACH")]
 REPS_NAMES = ["LDA", "LEAX", "JMP", "STX"]
 SYM_RE = __import__("re").compile(r"(?<![\w$'])[EL](?!\w)")
@@ -110,6 +111,9 @@ def cases(tier, seed):
             if t not in seen:
                 seen.add(t)
                 yield {"mnem": mnem, "text": t, "src": "perturb"}
+                if SYM_RE.search(t) or "ZZ9" in t:
+                    # the same statement in a program that lies in the zero page: a label's value then has a two-digit shortest form
+                    yield {"mnem": mnem, "text": t, "src": "perturb", "org": LOW_ORG}
         depth = 4 if tier == "thorough" else 3
         if mnem in REPS_DEEP:
             depth += 1
@@ -138,7 +142,7 @@ def cases(tier, seed):
 
 def build(case):
     e, lb = case.get("ren", ("E", "L"))
-    return ["{} EQU 300".format(e), " ORG $2000", "{} NOP".format(lb), " {} {}".format(case["mnem"], case["text"]), "ZZ9 NOP"]
+    return ["{} EQU 300".format(e), " ORG ${:04X}".format(case.get("org", 0x2000)), "{} NOP".format(lb), " {} {}".format(case["mnem"], case["text"]), "ZZ9 NOP"]
 
 
 def all_programs(tier):
@@ -153,7 +157,8 @@ def check_case(case):
     res = {"outcome": out["kind"], "state": out["kind"], "nontrivial": False}
     if out["kind"] != "OK":
         return res
-    cell = "{}|{}".format(mnem, text)
+    cell = "{}|{}".format(mnem, text) + ("|org=${:04X}".format(case["org"]) if "org" in case else "")
+    org = case.get("org", 0x2000)
     viol = []
 
     def bad(symptom, expected, observed):
@@ -177,7 +182,7 @@ def check_case(case):
         bad("listing shows {} byte(s) for the {} emitted".format(c02d(len(out["hex"][3] or "") // 2), len(body)), "hex column " + body.hex().upper(), "hex column " + (out["hex"][3] or "-"))
     else:
         try:
-            symvals = SYMVALS if "ren" not in case else {case["ren"][0]: 300, case["ren"][1]: 0x2000, "@stmt": 0x2001}
+            symvals = dict(SYMVALS, **{"L": org, "@stmt": org + 1}) if "ren" not in case else {case["ren"][0]: 300, case["ren"][1]: 0x2000, "@stmt": 0x2001}
             intent = R.parse_operand(mnem, text, symvals)
         except Exception:
             intent = None
@@ -233,5 +238,5 @@ def describe(tier):
                   "all bytes consumed, count = ZZ9 - listed address; texts that the documented grammar parses into value-out-of-range / "
                   "wrong-register / absent-mode must not be accepted",
         "rule": "complete enumeration of the text space; state = (mnemonic, decoded meaning) of accepted statements; non-trivial = accepted",
-        "assumptions": ["statement embedded as: E EQU 300 / ORG $2000 / L NOP / <stmt> / ZZ9 NOP"],
+        "assumptions": ["statement embedded as: E EQU 300 / ORG $2000 / L NOP / <stmt> / ZZ9 NOP; the symbol-using texts of (a) again with ORG $0020 (labels in the zero page)"],
     }
